@@ -459,5 +459,10 @@ for r, what in (('R21', 'mixture_model_utils / cacgmm / cACG'), ('R22', 'cwmm / 
                 ('R24', 'beamformer / beamformer_wrapper / math.solve'), ('R25', 'permutation_alignment / initializers'), ('R26', 'mask_module / sxr_module / si_sdr / utils')):
     C.append(dict(id=f'N4-{r}-restructuring', kind='neutral', properties=ALLP, note=f'independent deeper restructuring of {what}', patch=f'neutral_patches/{r}.patch', edits=[],
                   inconclusive_ok={'R23': ['C08'], 'R24': ['C12']}.get(r, [])))
+# ---- third campaign: a free mix of both families (16-20 edits per patch)
+for r, what in (('R31', 'mixture_model_utils / cacgmm / cACG'), ('R32', 'cwmm / cbmm / Watson / Bingham / distribution.utils'), ('R33', 'gmm / gaussian / vMF / gcacgmm / vmfcacgmm'),
+                ('R34', 'beamformer / beamformer_wrapper / math.solve'), ('R35', 'permutation_alignment / initializers'), ('R36', 'mask_module / sxr_module / si_sdr / utils')):
+    C.append(dict(id=f'N6-{r}-mixed-refactoring', kind='neutral', properties=ALLP, note=f'independent mixed refactoring of {what}', patch=f'neutral_patches/{r}.patch', edits=[],
+                  inconclusive_ok={'R34': ['C12']}.get(r, [])))
 out.write_text(json.dumps(C, indent=1))
 print(len(C), 'variants ->', out)
